@@ -26,7 +26,7 @@ META = {
              'non-trivial = request list with >= 2 entries'),
     'min': {'evaluations': 1500, 'distinct': 500,
             'classes': {'indexes:with-repeats': 50, 'indexes:non-default-kind': 100, 'policy:error:raised': 30,
-                        'policy:drop:some-missing': 30, 'policy:fill:some-missing': 30, 'points:all-hit': 30,
+                        'policy:drop:some-missing': 30, 'policy:fill:some-missing': 30, 'points:all-hit': 30, 'points:only-the-first-misses': 30,
                         'absent:other-kind-variable': 100, 'absent:geometry-variable': 100}},
     'must_reach': ['emsarray.conventions._base:Convention.select_indexes', 'emsarray.operations.point_extraction:extract_points',
                    'emsarray.operations.point_extraction:extract_dataframe'],
@@ -158,6 +158,18 @@ def one_dataset(obs, rng, conv, spec, workdir=None):
             pts_cls = [pc for pc in pts_cls if locate(polys, pc[0])[0] is not None]
         if not pts_cls:
             continue
+        if rng.random() < 0.25 and len(pts_cls) >= 2:
+            # exactly ONE miss, and it is request number 0 (positions are what 'error' reports: 0 must not read as "none")
+            hits_only = [pc for pc in pts_cls if locate(polys, pc[0])[0] is not None]
+            miss_only = [pc for pc in pts_cls if locate(polys, pc[0])[0] is None]
+            if not miss_only:
+                from shapely.geometry import Point
+                from ..geomgen import hull_bounds
+                b = hull_bounds(model)
+                miss_only = [(Point(b[2] + 5 * (b[2] - b[0] + 1), b[3] + 5 * (b[3] - b[1] + 1)), 'far_outside')]
+            if hits_only:
+                pts_cls = [miss_only[0]] + hits_only
+                obs.cls('points:only-the-first-misses')
         pts = [p for p, _ in pts_cls]
         located = [locate(polys, p)[0] for p in pts]
         misses = [i for i, n in enumerate(located) if n is None]
